@@ -46,6 +46,10 @@ Step(fs, op, ety, eid) ==
                                 THEN [fs |-> fs, res |-> RField(op.k, fs[DictIdx(fs, op.k)].v)]
                                 ELSE [fs |-> fs, res |-> RDefault]
       [] op.op = "contains"  -> [fs |-> fs, res |-> RBool(op.k \in KeysOf(fs))]
+      \* not one of the mapping operations of the statement, but a public way to change an entry: the key of a held
+      \* Field object is assigned (op.v is the new key; enabled only for a held key and a new key that is free and not
+      \* reserved).  The field keeps its position and value - and the three views keep agreeing.
+      [] op.op = "rename"    -> [fs |-> [i \in DOMAIN fs |-> IF fs[i].k = op.k THEN [k |-> op.v, v |-> fs[i].v] ELSE fs[i]], res |-> RNone]
       [] op.op = "getitem"   -> IF op.k = "ENTRYTYPE" THEN [fs |-> fs, res |-> RVal(ety)]
                                 ELSE IF op.k = "ID" THEN [fs |-> fs, res |-> RVal(eid)]
                                 ELSE IF op.k \in KeysOf(fs)
@@ -81,11 +85,15 @@ ODStep(od, op, ety, eid) ==
       [] op.op = "get"      -> IF ODHas(od, op.k) THEN [od |-> od, res |-> RField(op.k, od.map[op.k])]
                                                   ELSE [od |-> od, res |-> RDefault]
       [] op.op = "contains" -> [od |-> od, res |-> RBool(ODHas(od, op.k))]
+      [] op.op = "rename"   -> [od |-> [keys |-> [i \in DOMAIN od.keys |-> IF od.keys[i] = op.k THEN op.v ELSE od.keys[i]],
+                                        map |-> [x \in (DOMAIN od.map \ {op.k}) \cup {op.v} |-> IF x = op.v THEN od.map[op.k] ELSE od.map[x]]],
+                                res |-> RNone]
       [] op.op = "getitem"  -> IF op.k = "ENTRYTYPE" THEN [od |-> od, res |-> RVal(ety)]
                                ELSE IF op.k = "ID" THEN [od |-> od, res |-> RVal(eid)]
                                ELSE IF ODHas(od, op.k) THEN [od |-> od, res |-> RVal(od.map[op.k])]
                                ELSE [od |-> od, res |-> RKeyError]
 
+RenameEnabled(fs, op) == op.k \in KeysOf(fs) /\ op.v \notin KeysOf(fs) /\ op.v \notin Reserved
 Refines(fs, op, ety, eid) ==
     LET s == Step(fs, op, ety, eid)
         d == ODStep(Abs(fs), op, ety, eid)
